@@ -378,8 +378,8 @@ fn blanks(input: Span) -> IResult<Span, ()> {
     V("seed-C10-r2-m2-no-truncate", [("@patch", "seeded/C10-r2-m2/patch.diff")], {"C10": "OUTFILE", "C06": "OUTFILE"}),
     V("seed-C11-r2-m2-fallback-map-filters-plain-defs", [("@patch", "seeded/C11-r2-m2/patch.diff")], {"C11": "SKIPS:"}),
     V("seed-C11-r2-m3-shadowed-command-set", [("@patch", "seeded/C11-r2-m3/patch.diff")], {"C11": "FLAGS:bash:one-command-id-set"}),
-    V("seed-C12-r2-m1-empty-level-tables-skipped", [("@patch", "seeded/C12-r2-m1/patch.diff")], {"C12": "SKIPS:bash::write_completion_tables", "C04": "SKIPS:bash::write_completion_tables"}),
-    V("seed-C17-r2-m1-empty-command-table-not-declared", [("@patch", "seeded/C17-r2-m1/patch.diff")], {"C17": "SKIPS:bash::write_match_transitions"}),
+    V("seed-C12-r2-m1-empty-level-tables-skipped", [("@patch", "seeded/C12-r2-m1/patch.diff")], {"C12": "DECLGUARD:bash.", "C04": "DECLGUARD:bash."}),
+    V("seed-C17-r2-m1-empty-command-table-not-declared", [("@patch", "seeded/C17-r2-m1/patch.diff")], {"C17": "DECLGUARD:bash.command_transitions"}),
     V("seed-C10-r2-m1-type-annotation-no-c02-alarm", [("@patch", "seeded/C10-r2-m1/patch.diff")], {"C10": "D:ahash:features", "C02": None}),
     V("seed-C12-r2-m3-zsh-exclusive-bound", [("@patch", "seeded/C12-r2-m3/patch.diff")], {"C12": "SIBLINGS:zsh:literal-loop-bounds"}),
     V("seed-C13-r2-m1-pwsh-arm-shell-span", [("@patch", "seeded/C13-r2-m1/patch.diff")], {"C13": "FF:parse::Grammar::get_specializations"}),
